@@ -31,6 +31,8 @@ ChartHooks(c) ==
   [h \in DOMAIN hs |-> [kind |-> hs[h].kind, events |-> Range(hs[h].events),
                         weight |-> hs[h].weight, pols |-> Range(hs[h].pols)]]
 
+ChartCRDs(c) == ChartLib[c].crds           \* sequence of CRD object ids in crds/ (read order = file name order)
+
 NoRec == [st |-> "none", ch |-> "none", cfg |-> "none", man |-> <<>>, hooks |-> <<>>]
 MkRec(st, c) == [st |-> st, ch |-> c, cfg |-> "c0", man |-> ChartMan(c), hooks |-> ChartHooks(c)]
 
@@ -46,7 +48,7 @@ UninstRank(k) == CASE k = "Service" -> 6 [] k = "Job" -> 8 [] k = "ConfigMap" ->
 \* ids are "r1", "r2", ... : order by the string (TLC has no string <, so use an explicit table)
 IdRank(id) == CASE id = "r1" -> 1 [] id = "r2" -> 2 [] id = "r3" -> 3 [] id = "r4" -> 4 [] id = "r5" -> 5
                 [] id = "h1" -> 11 [] id = "h2" -> 12 [] id = "h3" -> 13 [] id = "h4" -> 14
-                [] id = "by1" -> 21 [] OTHER -> 99
+                [] id = "by1" -> 21 [] id = "c1" -> 31 [] id = "c2" -> 32 [] OTHER -> 99
 
 \* sequence of the ids of S ordered by key(_) (a total order is assumed)
 OrderBy(S, key(_)) ==
